@@ -199,7 +199,7 @@ Lemma hfacts :
   (forall n i o a, In (n, i, o, a) (ht_rules s) -> length i = ni /\ length o = no /\ length a = na) /\
   mcols d = cann + na /\ mrows d = hdr + nr.
 Proof.
-  unfold wf_htable in Hs. rewrite !andb_true_iff in Hs. destruct Hs as ((((((H1 & H2) & H3) & H4) & H5) & H6) & H7).
+  unfold wf_htable in Hs. rewrite !andb_true_iff in Hs. destruct Hs as (((((((H1 & H2) & H3) & H4) & H5) & H6) & H7) & H8).
   apply Nat.leb_le in H2, H3, H4. apply Nat.eqb_eq in H6, H7. repeat split; try assumption.
   - unfold hrule_lengths_ok in H5. rewrite forallb_forall in H5. specialize (H5 _ H). cbn in H5. rewrite !andb_true_iff in H5.
     destruct H5 as ((D1 & D2) & D3). now apply Nat.eqb_eq in D1.
@@ -266,7 +266,10 @@ Proof.
 Qed.
 
 (* ------------------------------------------------------------------ the merged cells of the header *)
-Lemma hreg_rule i j : hdr <= i -> hreg s i j = (i, j, S i, S j).
+Lemma hreg_rule i j : hdr <= i -> hreg s i j =
+  if (1 <=? j) && (j <? cout) then
+    match merge_of s (j - 1) (i - hdr) with Some (_, a, b) => (hdr + a, j, S (hdr + b), S j) | None => (i, j, S i, S j) end
+  else (i, j, S i, S j).
 Proof. intro Hi. unfold hreg. now tr_leb hdr i. Qed.
 Lemma hreg_hp k : k < hdr -> hreg s k 0 = (0, 0, hdr, 1).
 Proof. intro Hk. unfold hreg. now fa_leb hdr k. Qed.
@@ -286,11 +289,46 @@ Qed.
 Lemma htxt_hdr k j : k < hdr -> htxt s k j = nth j (hrow_blocks s k) [].
 Proof. intro Hk. unfold htxt, grid_blocks. now tr_ltb k hdr. Qed.
 
-Lemma mtext_cell i j : j < cann + na -> mtext d i j = btext (htxt s i j).
+Lemma block_eqb_eq (a b : block) : block_eqb a b = true -> a = b.
 Proof.
-  intros Hj. destruct hdr_facts as (F1 & F2 & F3 & F4 & F5 & F6 & F7). destruct hfacts as (_ & Hi1 & Ho1 & _).
+  assert (forall x y : list N, all2 N.eqb x y = true -> x = y) as H1.
+  { induction x as [|c x IH]; intros [|c' y] E'; cbn [all2] in E'; try discriminate; [reflexivity|].
+    apply andb_true_iff in E'. destruct E' as [E1 E2]. apply N.eqb_eq in E1. subst. f_equal. now apply IH. }
+  unfold block_eqb. revert b. induction a as [|x a IH]; intros [|y b] E'; cbn [all2] in E'; try discriminate; [reflexivity|].
+  apply andb_true_iff in E'. destruct E' as [E1 E2]. f_equal; [now apply H1|now apply IH].
+Qed.
+
+(* the entry of input q in rule r is where the grid of blocks has it *)
+Lemma rule_entry r q : r < nr -> q < ni -> htxt s (hdr + r) (S q) = input_entry s r q.
+Proof.
+  intros Hr Hq. destruct hfacts as (_ & _ & _ & _ & Hl & _). unfold htxt, grid_blocks, input_entry. fa_ltb (hdr + r) hdr. replace (hdr + r - hdr) with r by lia.
+  assert (In (nth r (ht_rules s) ([], [], [], [])) (ht_rules s)) as Hin by (apply nth_In; unfold h_nr in Hr; lia).
+  destruct (nth r (ht_rules s) ([], [], [], [])) as [[[n ii] o] a]. destruct (Hl n ii o a Hin) as (L1 & _).
+  unfold rule_blocks. cbn [nth]. apply app_nth1. lia.
+Qed.
+
+Lemma merged_entry q a b r : In (q, a, b) (ht_merge s) -> a <= r -> r <= b -> input_entry s r q = input_entry s a q.
+Proof.
+  intros Hin Ha Hb. unfold wf_htable in Hs. rewrite !andb_true_iff in Hs. destruct Hs as (_ & H8). unfold merged_same in H8.
+  rewrite forallb_forall in H8. specialize (H8 _ Hin).
+  change (forallb (fun r => block_eqb (input_entry s r q) (input_entry s a q)) (seq a (S b - a)) = true) in H8.
+  rewrite forallb_forall in H8. apply block_eqb_eq. apply H8. apply in_seq. lia.
+Qed.
+
+Lemma mtext_cell i j : i < hdr + nr -> j < cann + na -> mtext d i j = btext (htxt s i j).
+Proof.
+  intros Hir Hj. destruct hdr_facts as (F1 & F2 & F3 & F4 & F5 & F6 & F7). destruct hfacts as (_ & Hi1 & Ho1 & _).
   unfold mtext. cbn [header_drawing md_reg md_txt].
-  destruct (Nat.le_gt_cases hdr i) as [Hi|Hi]; [now rewrite hreg_rule by assumption|].
+  destruct (Nat.le_gt_cases hdr i) as [Hi|Hi].
+  { rewrite hreg_rule by assumption. destruct ((1 <=? j) && (j <? cout)) eqn:Ej; [|reflexivity].
+    apply andb_true_iff in Ej. destruct Ej as [J1 J2]. apply Nat.leb_le in J1. apply Nat.ltb_lt in J2. unfold c_out in J2.
+    destruct (merge_of s (j - 1) (i - hdr)) as [[[q a] b]|] eqn:Em; [|reflexivity].
+    unfold merge_of in Em. apply find_some in Em. destruct Em as [Hin Hp]. rewrite !andb_true_iff in Hp. destruct Hp as ((P1 & P2) & P3).
+    apply Nat.eqb_eq in P1. apply Nat.leb_le in P2, P3. subst q.
+    unfold btext.
+    assert (htxt s (hdr + a) j = input_entry s a (j - 1)) as -> by (rewrite <- (rule_entry a (j - 1)) by lia; f_equal; lia).
+    assert (htxt s i j = input_entry s (i - hdr) (j - 1)) as -> by (rewrite <- (rule_entry (i - hdr) (j - 1)) by lia; f_equal; lia).
+    now rewrite (merged_entry (j - 1) a b (i - hdr) Hin P2 P3). }
   destruct (Nat.eq_dec j 0) as [->|J0].
   { rewrite hreg_hp by assumption. unfold btext. now rewrite !htxt_hdr by lia. }
   destruct (Nat.lt_ge_cases j cout) as [J1|J1].
@@ -328,7 +366,7 @@ Lemma A_length : length A = na. Proof. apply map_length. Qed.
 Lemma canvas_header_row k : k < hdr -> EA code (mrow d k) = crow code A (a_k k) (b_k k) A.
 Proof.
   intro Hk. destruct hfacts as (Hd & Hi1 & Ho1 & _). apply (mrow_crow code d).
-  - intros j Hj. rewrite d_ncols in Hj. rewrite mtext_cell by assumption. rewrite htxt_hdr by assumption. rewrite <- row_texts.
+  - intros j Hj. rewrite d_ncols in Hj. rewrite mtext_cell by (try assumption; lia). rewrite htxt_hdr by assumption. rewrite <- row_texts.
     change (@nil N) with (btext []). symmetry. apply map_nth.
   - rewrite d_ncols, a_k_length, b_k_length, A_length. unfold c_ann. lia.
   - now rewrite a_k_length.
@@ -343,7 +381,8 @@ Lemma canvas_rule_row_h k n i o a : nth_error (ht_rules s) k = Some (n, i, o, a)
 Proof.
   intro Hk. destruct hfacts as (Hd & Hi1 & Ho1 & _ & Hl & _). destruct (Hl n i o a (nth_error_In _ _ Hk)) as (L1 & L2 & L3).
   apply (mrow_crow code d).
-  - intros j Hj. rewrite d_ncols in Hj. rewrite mtext_cell by assumption. unfold htxt, grid_blocks. fa_ltb (hdr + k) hdr.
+  - intros j Hj. rewrite d_ncols in Hj. assert (k < nr) as Lk by (apply nth_error_Some; unfold h_nr; congruence).
+    rewrite mtext_cell by (try assumption; lia). unfold htxt, grid_blocks. fa_ltb (hdr + k) hdr.
     replace (hdr + k - hdr) with k by lia. rewrite (nth_error_nth _ _ _ Hk). unfold rule_blocks.
     replace ((btext n :: map btext i) ++ map btext o ++ map btext a) with (map btext (n :: i ++ o ++ a)) by (cbn [map app]; now rewrite !map_app).
     change (@nil N) with (btext []). symmetry. apply map_nth.
